@@ -121,11 +121,11 @@ func main() {
 	r := vlib.Start("C04", "exploration")
 	rng := r.Rand("gen")
 
-	solBody, err := csrc.SolFunctionBody("/repo/ethereum/contracts/Messages.sol", "parseVM")
+	solBody, err := csrc.SolFunctionBody(vlib.Repo()+"/ethereum/contracts/Messages.sol", "parseVM")
 	if err != nil {
 		r.Inconclusive("Messages.sol parseVM: " + err.Error())
 	}
-	ral, err := csrc.LoadRalph("/repo/alephium/contracts/governance.ral")
+	ral, err := csrc.LoadRalph(vlib.Repo() + "/alephium/contracts/governance.ral")
 	if err != nil || !ral.HasFunc("parseAndVerifyVAA") {
 		r.Inconclusive(fmt.Sprintf("governance.ral parseAndVerifyVAA not loadable: %v", err))
 		ral = nil
